@@ -44,6 +44,26 @@ def perturb(cfg):
                 pdk_module(kind).compile(t)
             except Exception:
                 pass
+    # unrelated calls of the built-in generators with parameters EQUAL to the program's, written differently, and an unrelated
+    # PDK compile of a design that uses the same generator call as the program
+    for k in range(cfg.get("junk_gen_spell", 0)):
+        try:
+            from hdl21.generators import Series
+            from hdl21.prefix import MILLI
+
+            Series(unit=h.R(r=1000 * MILLI), conns=("p", "n"), nser=2)
+        except Exception:
+            pass
+    for k in range(cfg.get("junk_gen_compile", 0)):
+        try:
+            from hdl21.generators import MosStack
+
+            t = h.Module(name=f"JunkGen{k}")
+            t.a, t.b, t.g, t.v = h.Signal(), h.Signal(), h.Signal(), h.Signal()
+            t.st = MosStack(unit=h.Nmos(), nser=2)(d=t.a, s=t.b, g=t.g, b=t.v)
+            pdk_module("sky130").compile(t)
+        except Exception:
+            pass
     if not cfg.get("gc", True):
         gc.disable()
     return junk
@@ -150,6 +170,20 @@ def run(seed, n, cfg):
             res[label] = entry
         except Exception as e:
             res[label] = {"pkg": f"raised:{type(e).__name__}"}
+    # generator calls shared (through the generator cache) with unrelated earlier work
+    try:
+        from hdl21.generators import Series, MosStack
+        from hdl21.prefix import UNIT
+
+        m = Series(unit=h.R(r=1 * UNIT), conns=("p", "n"), nser=2)
+        res["generators:cached-call-equal-value"] = {"pkg": sha(h.to_proto(m).SerializeToString(deterministic=True))}
+        t = h.Module(name="C12StackTop")
+        t.a, t.b, t.g, t.v = h.Signal(), h.Signal(), h.Signal(), h.Signal()
+        t.st = MosStack(unit=h.Nmos(), nser=2)(d=t.a, s=t.b, g=t.g, b=t.v)
+        pdk_module("sample").compile(t)
+        res["generators:cached-call-compiled"] = {"pkg": sha(h.to_proto(t).SerializeToString(deterministic=True))}
+    except Exception as e:
+        res["generators:cached-call-equal-value"] = {"pkg": f"raised:{type(e).__name__}"}
     # hdl21.pdk.compile without naming a PDK while several are registered (whatever it does, it does it in every process)
     try:
         import hdl21.pdk as hp
